@@ -1,4 +1,4 @@
-(* GENERATED from the Go sources of /var/tmp/mrepo by /verif/tools/gen_model — do not edit. *)
+(* GENERATED from the Go sources of /repo by /verif/tools/gen_model — do not edit. *)
 From Coq Require Import String.
 From OtpV Require Import Prelude Sha GoSem Rfc4648 Errors Decoder Otp Ocra Utils Suite Url.
 Open Scope N_scope.
@@ -438,6 +438,49 @@ Definition totpGeneration (fuel0 : nat) (junk_rfc4226BufPool : bytes) (ctx : rct
   kj1 req)
   else (kj1 req).
 
+Definition totpValidation (fuel0 : nat) (junk_rfc4226BufPool : bytes) (ctx : rctx) : res rctx :=
+  if (negb (ctx_is_post ctx)) then (do t1 <- writeError ctx 405%Z (s2b "method not allowed") tt;
+  let '(ctx) := t1 in
+  Val ctx)
+  else
+  let req : t_otpValidateReq := zero_otpValidateReq in
+  let '(req, t2) := unmarshal_otpValidateReq (ctx_body ctx) in
+  let err_ := t2 in
+  if (is_some err_) then (do t3 <- writeError ctx 400%Z (s2b "failed to decode body") tt;
+  let '(ctx) := t3 in
+  Val ctx)
+  else
+  do t4 <- otpValidateReq_validate req;
+  let err__2 := t4 in
+  if (is_some err__2) then (do t5 <- deref err__2;
+  do t6 <- writeError ctx 400%Z t5 tt;
+  let '(ctx) := t6 in
+  Val ctx)
+  else
+  do t7 <- Src.AlgorithmFromStr (otpValidateReq_Algorithm req);
+  let algo := t7 in
+  do t8 <- Src.DigitsFromStr (otpValidateReq_Digits req);
+  let digits := t8 in
+  let t : Z := 0%Z in
+  let kj1 := fun (t : Z) =>
+  do t9 <- Src.ValidateTOTP fuel0 junk_rfc4226BufPool (trim_space (otpValidateReq_Secret req)) (otpValidateReq_Code req) t (Some (mkParam digits (otpValidateReq_Period req) (otpValidateReq_Skew req) algo));
+  let t10 := (fst t9, option_map err_text (snd t9)) in
+  let '(ok, _) := t10 in
+  let resp := (mk_otpValidateResp ok) in
+  let '(data, err__3) := ((marshal_otpValidateResp resp), @None bytes) in
+  if (is_some err__3) then (do t11 <- writeError ctx 500%Z (s2b "failed to marshal response") tt;
+  let '(ctx) := t11 in
+  Val ctx)
+  else
+  let ctx := (ctx_set_ctype ctx (s2b "application/json")) in
+  let ctx := (ctx_set_status ctx 200%Z) in
+  let ctx := (ctx_set_body ctx data) in
+  Val ctx in
+  if (Z.ltb 0%Z (otpValidateReq_Timestamp req)) then (let t := (otpValidateReq_Timestamp req) in
+  kj1 t)
+  else (let t := (cx_now ctx) in
+  kj1 t).
+
 Definition hotpGeneration (fuel0 : nat) (junk_rfc4226BufPool : bytes) (ctx : rctx) : res rctx :=
   if (negb (ctx_is_post ctx)) then (do t1 <- writeError ctx 405%Z (s2b "method not allowed") tt;
   let '(ctx) := t1 in
@@ -818,4 +861,50 @@ Definition home (ctx : rctx) : res rctx :=
   let ctx := (ctx_set_status ctx 200%Z) in
   let ctx := (ctx_set_body ctx data) in
   Val ctx.
+
+Definition routers (fuel0 : nat) (junk_rand : bytes) (junk_rfc4226BufPool : bytes) (junk_rfc6287BufPool : bytes) (ctx : rctx) : res rctx :=
+  let path := (ctx_path ctx) in
+  if (beqb path (s2b "/docs")) then (let ctx := (ctx_redirect ctx (s2b "/docs/index.html") 302%Z) in
+  Val ctx)
+  else
+  if (is_prefix (s2b "/docs/") path) then (let ctx := ctx_other ctx in
+  Val ctx)
+  else
+  let t1 := path in
+  if ((beqb t1 (s2b "/totp/generate"))) then (do t2 <- totpGeneration fuel0 junk_rfc4226BufPool ctx;
+  let ctx := t2 in
+  Val ctx)
+  else if ((beqb t1 (s2b "/totp/validate"))) then (do t3 <- totpValidation fuel0 junk_rfc4226BufPool ctx;
+  let ctx := t3 in
+  Val ctx)
+  else if ((beqb t1 (s2b "/hotp/generate"))) then (do t4 <- hotpGeneration fuel0 junk_rfc4226BufPool ctx;
+  let ctx := t4 in
+  Val ctx)
+  else if ((beqb t1 (s2b "/hotp/validate"))) then (do t5 <- hotpValidation fuel0 junk_rfc4226BufPool ctx;
+  let ctx := t5 in
+  Val ctx)
+  else if ((beqb t1 (s2b "/ocra/generate"))) then (do t6 <- ocraGeneration fuel0 junk_rfc6287BufPool ctx;
+  let ctx := t6 in
+  Val ctx)
+  else if ((beqb t1 (s2b "/ocra/validate"))) then (do t7 <- ocraValidation fuel0 junk_rfc6287BufPool ctx;
+  let ctx := t7 in
+  Val ctx)
+  else if ((beqb t1 (s2b "/ocra/suites"))) then (do t8 <- listOCRASuites fuel0 ctx;
+  let ctx := t8 in
+  Val ctx)
+  else if ((beqb t1 (s2b "/ocra/suite"))) then (do t9 <- ocraSuiteConfig ctx;
+  let ctx := t9 in
+  Val ctx)
+  else if ((beqb t1 (s2b "/otp/url"))) then (do t10 <- otpURLGeneration fuel0 ctx;
+  let ctx := t10 in
+  Val ctx)
+  else if ((beqb t1 (s2b "/otp/secret"))) then (do t11 <- generateRandomSecret junk_rand ctx;
+  let ctx := t11 in
+  Val ctx)
+  else if ((beqb t1 (s2b "/"))) then (do t12 <- home ctx;
+  let ctx := t12 in
+  Val ctx)
+  else (let ctx := (ctx_set_status ctx 404%Z) in
+  let ctx := (ctx_set_body_string ctx (s2b "404 - Not Found")) in
+  Val ctx).
 
